@@ -24,6 +24,9 @@ Step == CASE e.op = "@" -> Restart
           [] e.op = "repeat" -> Repeat
           [] e.op = "avail" -> Avail
           [] e.op = "rest" -> Rest
+          [] e.op = "sinkput" -> SinkPut(Drop(e.a, 1))
+          [] e.op = "srcget" -> SrcGet(e.a[1])
+          [] e.op = "srcgetam" -> SrcGetAtMost(e.a[1])
           [] OTHER -> FALSE
 
 TNext == /\ l <= Len(TraceLog)
